@@ -63,7 +63,7 @@ func ZvC11_UniqueBy() {
 func ZvC11_Union() {
 	var flat []int
 	bad := false
-	nest := zvNest(vrt.Pick(2, 3), &flat, &bad)
+	nest := zvNest(2, &flat, &bad) // depth 3 has > 5 million shapes
 	if len(flat) > vrt.Pick(4, 5) {
 		return // stated bound on the number of leaves
 	}
